@@ -278,7 +278,7 @@ theorem C32_fields_component (cast : Int → α) (ft : FT) (sym : Nat → Int) (
   split_ifs at h
   simp only [Option.some.injEq] at h
   subst h
-  simp [List.getElem?_mapIdx, hc]
+  simp [hc]
 
 /-- C32_fields_upper_half: restricting every component of the unfolded field to the kept half returns the
     reduced field (all shapes, all valid symmetry tuples, both field kinds). -/
@@ -375,7 +375,7 @@ theorem sum3_unfoldAxis [CommRing K] (a : Nat) (s : K) (A : A3 K) :
     rw [this, List.sum_map_mul_left]
 
 /-- the factor one pass contributes to a sum -/
-def passFactor [CommRing K] (w : Int) (s : K) : K := if w = 0 then 1 else 1 + s
+def passFactor [Add K] [One K] (w : Int) (s : K) : K := if w = 0 then 1 else 1 + s
 
 /-- C32_sum_unfold3: the total of the unfolded spatial record is `∏ (1 + s_a)` over the touched axes times the
     stored total, when every touched axis uses the plain flip. -/
@@ -387,7 +387,7 @@ theorem C32_sum_unfold3 [CommRing K] (w : Nat → Int) (s : Nat → K) (A : A3 K
     simp only [h0, h1, h2, if_true, if_false, sum3_unfoldAxis] <;> ring
 
 /-- `_reduce_factor` for a sum is the product of `(1 + p)` -/
-theorem C32_reduce_factor_sum [CommRing K] (cast : Int → K) (h1 : cast 1 = 1) (ps : List Int) :
+theorem C32_reduce_factor_sum [Field K] (cast : Int → K) (h1 : cast 1 = 1) (ps : List Int) :
     reduceFactor cast false ps = (ps.map (fun p => cast (1 + p))).prod := by
   unfold reduceFactor
   rw [h1]
@@ -395,7 +395,11 @@ theorem C32_reduce_factor_sum [CommRing K] (cast : Int → K) (h1 : cast 1 = 1) 
       = init * (ps.map (fun p => cast (1 + p))).prod := by
     induction ps with
     | nil => intro init; simp
-    | cons p t ih => intro init; simp [List.foldl_cons, ih, reduceTerm, mul_assoc]
+    | cons p t ih =>
+      intro init
+      simp only [List.foldl_cons, List.map_cons, List.prod_cons]
+      rw [ih]
+      simp [reduceTerm, mul_assoc]
   rw [this, one_mul]
 
 /-- `_reduce_factor` for a mean is the product of `(1 + p) / 2` -/
@@ -407,18 +411,22 @@ theorem C32_reduce_factor_mean [Field K] (cast : Int → K) (h1 : cast 1 = 1) (p
       = init * (ps.map (fun p => cast (1 + p) / cast 2)).prod := by
     induction ps with
     | nil => intro init; simp
-    | cons p t ih => intro init; simp [List.foldl_cons, ih, reduceTerm, mul_assoc]
+    | cons p t ih =>
+      intro init
+      simp only [List.foldl_cons, List.map_cons, List.prod_cons]
+      rw [ih]
+      simp [reduceTerm, mul_assoc]
   rw [this, one_mul]
 
 /-- the touched-axis product of `_reduce_factor` equals the per-pass product of `C32_sum_unfold3` -/
-theorem C32_reduce_factor_matches [CommRing K] (cast : Int → K) (h1 : cast 1 = 1)
+theorem C32_reduce_factor_matches [Field K] (cast : Int → K) (h1 : cast 1 = 1)
     (hadd : ∀ p : Int, cast (1 + p) = 1 + cast p) (w : Nat → Int) (p : Nat → Int) :
     reduceFactor cast false ((touchedAxes w).map p) =
       passFactor (w 0) (cast (p 0)) * passFactor (w 1) (cast (p 1)) * passFactor (w 2) (cast (p 2)) := by
   rw [C32_reduce_factor_sum cast h1]
   unfold touchedAxes passFactor
   by_cases h0 : w 0 = 0 <;> by_cases h1' : w 1 = 0 <;> by_cases h2 : w 2 = 0 <;>
-    simp [List.filter_cons, h0, h1', h2, hadd] <;> ring
+    simp [h0, h1', h2, hadd, mul_assoc]
 
 private theorem len_plane_scale {α : Type} [Mul α] (s : α) (P : List (List α)) :
     ((P.map (fun r => r.map (fun x => s * x))).map List.length).sum = (P.map List.length).sum := by
@@ -482,16 +490,29 @@ theorem C32_reduce_factor_mean_matches [Field K] (cast : Int → K) (h1 : cast 1
   rw [C32_reduce_factor_mean cast h1]
   unfold touchedAxes passFactorMean
   by_cases h0 : w 0 = 0 <;> by_cases h1' : w 1 = 0 <;> by_cases h2' : w 2 = 0 <;>
-    simp [List.filter_cons, h0, h1', h2', hadd, h2] <;> ring
+    simp [h0, h1', h2', hadd, h2, mul_assoc]
 
 /-- C32_energy_factor: with every sign +1 the sum factor is `2 ^ count` (`state * 2**count`). -/
-theorem C32_energy_factor [CommRing K] (cast : Int → K) (h1 : cast 1 = 1)
+theorem C32_energy_factor [Field K] (cast : Int → K) (h1 : cast 1 = 1)
     (hadd : ∀ p : Int, cast (1 + p) = 1 + cast p) (w : Nat → Int) :
     reduceFactor cast false ((touchedAxes w).map (fun _ => 1)) = 2 ^ (touchedAxes w).length := by
   rw [C32_reduce_factor_sum cast h1]
-  simp only [List.map_map, Function.comp_def, hadd, h1, List.map_const', List.prod_replicate, List.length_map]
+  simp only [hadd, List.map_const', List.map_replicate, List.prod_replicate, h1]
   norm_num
 
+/-- non-vacuity: a 1×1×2 record, touched by an x- and a z-plane, odd along z -/
+example : sum3 (unfold3 (sym3 (-1) 0 1) (fun a => if a = 2 then (-1 : Int) else 1) (fun _ => false) [[[3, 5]]]) = 0
+    ∧ sum3 (unfold3 (sym3 (-1) 0 1) (fun _ => (1 : Int)) (fun _ => false) [[[3, 5]]]) = 4 * 8 := by decide
+
 end Reduce
+
+/-! ### the pinned tree before the fix: refutation witnesses -/
+
+/-- a single on-plane sample produced an EMPTY low block: the extent was not doubled … -/
+example : (AsFound.unfoldList (fun x : Int => -1 * x) true [7]).length = 1 := by decide
+/-- … so in `unfold_fields` the tangential (on-plane) and normal (flipped) components of a reduced field with one
+    cell on an electric axis got different extents (1 vs 2) and the component concatenation raised. -/
+example : (AsFound.unfoldList (fun x : Int => -1 * x) true [7]).length ≠
+    (AsFound.unfoldList (fun x : Int => 1 * x) false [7]).length := by decide
 
 end Fdtdx.C32
